@@ -1,6 +1,6 @@
 (* C18/Confs.v — assembles the chunk checks into the per-universe lemmas *)
 From Coq Require Import ZArith List Bool.
-From C18 Require Import Model Generated Spec Proofs ConfsA ConfsB ConfsC ConfsD ConfsE ConfsF ConfsG ConfsH ConfsI ConfsJ.
+From C18 Require Import Model Generated Spec Proofs ConfsA ConfsB ConfsC ConfsD ConfsE ConfsF ConfsG ConfsH ConfsI ConfsJ ConfsK.
 Import ListNotations.
 Open Scope Z_scope.
 
@@ -45,6 +45,9 @@ Proof. intros _. exact (check_universe_sound _ _ _ u2112_ok). Qed.
 
 Lemma conf_3x1_evict : shape_ok = true -> universe_statement U31e.
 Proof. intros _. exact (check_universe_sound _ _ _ u31e_ok). Qed.
+
+Lemma conf_2x1_newdir : shape_ok = true -> universe_statement U21d.
+Proof. intros _. exact (check_universe_sound _ _ _ u21d_ok). Qed.
 
 Lemma k1_torn : exists s, reach old_flags cfg_get_upd s /\ enabled old_flags (cfg_max cfg_get_upd) s = [] /\
   ~ lin_spec (cfg_disk cfg_get_upd) (rev (g_hist s)) (disk (g_core s)) /\ final_agree s = false /\
